@@ -596,6 +596,9 @@ type Consent struct {
 	// ExtraAudience is granted whether or not it was requested (an integrator's default audience).
 	ExtraAudience []string
 	GrantNil      bool // grant nothing at all
+	// FreshSession: the integrator installs its session as it is, without carrying over the expiry instants the device
+	// endpoint wrote (the library then derives the device code's expiry from the request time and the configured lifetime).
+	FreshSession bool
 }
 
 type AuthzResult struct {
@@ -973,7 +976,7 @@ func (w *World) DeviceDecide(userCode string, accept bool, c Consent, deviceCode
 				// keep the expiry instants the device endpoint set
 				old := d.GetSession()
 				ns := c.Session
-				if old != nil {
+				if old != nil && !c.FreshSession {
 					for _, k := range []fosite.TokenType{fosite.DeviceCode, fosite.UserCode} {
 						if e := old.GetExpiresAt(k); !e.IsZero() {
 							ns.SetExpiresAt(k, e)
